@@ -28,7 +28,7 @@ def gen_ext(rng, always=False):
 
 def count_cameras(spec):
     n = 0
-    if spec['kind'] == 'prog':
+    if spec['kind'] in ('prog', 'pathdoc'):
         n = spec['params'].get('cameras', 0)
     elif spec['name'].startswith('duck'):
         n = 1
@@ -110,6 +110,17 @@ def gen_prog(rng):
     return spec
 
 
+def gen_pathdoc(rng, how):
+    """a document that lives on disk (directory or zip archive) next to the auxiliary files its images name,
+    loaded from there; every history holds a successful write to a path in ANOTHER directory and to a stream"""
+    spec = gen_prog(rng)
+    spec['kind'] = 'pathdoc'
+    spec['how'] = how
+    spec['params']['images'] = rng.choice([1, 2, 3])
+    spec.pop('via_load', None)
+    return spec
+
+
 def gen_file(rng, name):
     edits = [rng.choice(EDITS) for _ in range(rng.choice([0, 1, 2]))]
     if not name.startswith('duck') and rng.random() < 0.7:
@@ -129,6 +140,17 @@ def gen_docs(rng, nprog, nfile_small, nfile_big, hist_len):
         docs.append(gen_prog(rng))
     for d in docs:
         d['history'] = gen_history(rng, d, hist_len)
+    hows = ['path', 'path', 'path', 'zip', 'zipstream', 'loader', 'stream']
+    for i in range(max(len(hows), nprog // 4)):
+        d = gen_pathdoc(rng, hows[i % len(hows)])
+        h = gen_history(rng, d, max(4, hist_len - 3))
+        extra = [{'op': 'write', 'dest': ['path', 'absent'], 'query': False},
+                 {'op': 'write', 'dest': ['sink', None], 'query': False},
+                 {'op': 'write', 'dest': ['path', 'existing'], 'query': True}]
+        for e in extra:
+            h.insert(rng.randrange(len(h) + 1), e)
+        d['history'] = h
+        docs.append(d)
     return docs
 
 
@@ -353,6 +375,8 @@ def run(ctx):
                          'sink_failure_positions': spos, 'documents_with_every_sink_position': sex,
                          'documents_with_sampled_sink_positions': len(sjobs) - sex,
                          'unwritable_documents': sum(1 for r in results if r and not r.get('writable')),
+                         'documents_loaded_from_disk_or_archive_with_auxiliary_files': sum(1 for d in docs if d['kind'] == 'pathdoc'),
+                         'lazy_queries_first_evaluated_after_the_history': sum(r.get('nlazy', 0) for r in results if r),
                          'indent_cases': len(iterms)},
         'mismatches': mismatches,
         'errors': errors + ierrors,
